@@ -149,6 +149,24 @@ Theorem C18_env_exact : forall idx base, check_index idx = true -> base <> "" ->
 Proof. exact env_exact. Qed.
 Print Assumptions C18_env_exact.
 
+(* the launch does not depend on how the plugin directory is spelled: for every working directory of the runtime,
+   every directory path (absolute or relative) and every file name, the file executed is the file discovery saw *)
+Theorem C18_executes_what_it_discovered : forall cwd dir name,
+  executed_file cwd "" dir name = discovered_file cwd dir name.
+Proof. exact executes_what_it_discovered. Qed.
+Print Assumptions C18_executes_what_it_discovered.
+
+(* not vacuous: with cmd.Dir = the plugin directory a relative directory is applied twice *)
+Theorem C18_cmd_dir_refuted : exists cwd dir name, executed_file cwd dir dir name <> discovered_file cwd dir name.
+Proof. exact cmd_dir_refuted. Qed.
+Print Assumptions C18_cmd_dir_refuted.
+
+Example C18_path_example :
+  discovered_file "/run" "plugins" "10-a" = "/run/plugins/10-a" /\ executed_file "/run" "" "plugins" "10-a" = "/run/plugins/10-a" /\
+  executed_file "/run" "plugins" "plugins" "10-a" = "/run/plugins/plugins/10-a" /\
+  executed_file "/run" "/opt/p" "/opt/p" "10-a" = discovered_file "/run" "/opt/p" "10-a".
+Proof. repeat split; reflexivity. Qed.
+
 (* "inherits no other open descriptor of the runtime or of other plugins": for ANY set of descriptors the runtime has
    open (other plugins' connections, listeners, files, at any numbers) that carry the close-on-exec flag, and wherever
    the socket pair sits, the launched process starts with exactly stdin, stdout, stderr and the one socket *)
